@@ -180,6 +180,45 @@ def case_euler_exact(kind, dim, field_type, pattern):
             step(field=arr, diffusion_flux=buf, nu_dt_by_dx2=c)
             got = [arr]
         trans += 1
+    # ---- history: a second call on the SAME kernel object with the SAME scratch-buffer object,
+    # dirtied in between (ring included), on a different field
+    fields2 = [_frac_field(shape, pattern + 3 + 5 * q) for q in range(ncomp)]
+    buf[...] = Fraction(-55, 7)
+    want2 = []
+    if kind == "advection":
+        for f in fields2:
+            fb = np.zeros(shape, dtype=object)
+            fb[...] = Fraction(0)
+            fluxgen(advection_flux=fb, field=f.copy(), velocity=velocity.copy(), inv_dx=-c)
+            want2.append(f + fb)
+        if field_type == "vector":
+            arr2 = np.stack(fields2)
+            step(vector_field=arr2, advection_flux=buf, velocity=vel_in, dt_by_dx=c)
+            got2 = [arr2[q] for q in range(3)]
+        else:
+            arr2 = fields2[0].copy()
+            step(field=arr2, advection_flux=buf, velocity=vel_in, dt_by_dx=c)
+            got2 = [arr2]
+    else:
+        for f in fields2:
+            fb = np.empty(shape, dtype=object)
+            fb[...] = Fraction(0)
+            fluxgen(diffusion_flux=fb, field=f.copy(), prefactor=c)
+            want2.append(f + fb)
+        if field_type == "vector":
+            arr2 = np.stack(fields2)
+            step(vector_field=arr2, diffusion_flux=buf, nu_dt_by_dx2=c)
+            got2 = [arr2[q] for q in range(3)]
+        else:
+            arr2 = fields2[0].copy()
+            step(field=arr2, diffusion_flux=buf, nu_dt_by_dx2=c)
+            got2 = [arr2]
+    trans += 1
+    for q, (g, w) in enumerate(zip(got2, want2)):
+        if np.any(g != w):
+            idx = tuple(int(i) for i in np.argwhere(g != w)[0])
+            fails.append(Fail(f"{kind}{s}:{field_type}:euler-step-repeated-call", f"second call of the Euler-forward {kind} kernel with the same scratch buffer != field + flux(field) (result depends on the call history)",
+                              component=q, cell=idx, got=g[idx], want=w[idx]))
     changed = 0
     for q, (g, w) in enumerate(zip(got, want)):
         neq = g != w
